@@ -195,6 +195,13 @@ func ReadTorrent(proxy string, r io.Reader) (*Torrent, error) {
 	return t, nil
 }
 
+// validComponent returns true if s can be used as the name of a file or
+// directory: the front-ends split paths at slashes, and "." and ".." are
+// interpreted by web browsers and by the kernel.
+func validComponent(s string) bool {
+	return s != "" && s != "." && s != ".." && !strings.Contains(s, "/")
+}
+
 // MetadataComplete must be called when a torrent's metadata is complete.
 func (torrent *Torrent) MetadataComplete() error {
 	var info BInfo
@@ -232,11 +239,16 @@ func (torrent *Torrent) MetadataComplete() error {
 			if path == nil {
 				path = f.Path
 			}
-			if path == nil {
+			if len(path) == 0 {
 				return errors.New("file has no path")
 			}
 			if f.Length < 0 || f.Length > math.MaxInt64-length {
 				return errors.New("bad file length")
+			}
+			for _, c := range path {
+				if !validComponent(c) {
+					return errors.New("bad file path")
+				}
 			}
 			files = append(files,
 				Torfile{Path: path,
@@ -285,6 +297,9 @@ func (torrent *Torrent) MetadataComplete() error {
 	}
 	if torrent.Name == "" {
 		return errors.New("torrent has no name")
+	}
+	if !validComponent(torrent.Name) {
+		return errors.New("bad torrent name")
 	}
 	torrent.Pieces.MetadataComplete(info.PieceLength, length)
 	torrent.Files = files
